@@ -166,3 +166,58 @@ Theorem C13_replace_only_empty_insertions : forall inner rs opsa opsb,
   chk_C13 (SReplace inner rs) inner true (api_pair (SReplace inner rs) opsa inner opsb) = 0.
 Proof. exact EmptyReplTree.C13_replace_empties. Qed.
 Print Assumptions C13_replace_only_empty_insertions.
+
+(* ---- the extracted checker accepts the model for every law, after ARBITRARY observer histories
+   on the two sides (cache-free trees: Raw*/Original/SMS/Concat/Replace; ASCII; input bounds) ---- *)
+From RS Require Proofs.LawChkBase Proofs.LawChkLaws Proofs.LawChkFirst Proofs.LawChkExample.
+Theorem C13_checker_boxed_nesting : forall a b c opsa opsb,
+  RStreamTree.rshape (SConcat [a; b; c]) = true -> treeA (SConcat [a; b; c]) = true ->
+  BoundsPos.tiny (SConcat [a; b; c]) = true ->
+  chk_C13 (SConcat [a; SConcat [b; c]]) (SConcat [a; b; c]) false
+          (api_pair (SConcat [a; SConcat [b; c]]) opsa (SConcat [a; b; c]) opsb) = 0 /\
+  chk_C13 (SConcat [SConcat [a; b]; c]) (SConcat [a; b; c]) false
+          (api_pair (SConcat [SConcat [a; b]; c]) opsa (SConcat [a; b; c]) opsb) = 0.
+Proof. exact LawChkFirst.C13_boxed_nesting_checker_any. Qed.
+Print Assumptions C13_checker_boxed_nesting.
+
+Theorem C13_checker_single_child : forall a opsa opsb,
+  RStreamTree.rshape a = true -> treeA a = true -> BoundsPos.tiny a = true ->
+  CompWarmLawsFull.consistentb (CompWarmContInv.decl a) = true ->
+  chk_C13 (SConcat [a]) a false (api_pair (SConcat [a]) opsa a opsb) = 0.
+Proof. exact LawChkLaws.C13_single_child_checker. Qed.
+Print Assumptions C13_checker_single_child.
+
+(* one content per file name is needed over the WHOLE left side: an empty OriginalSource announces
+   its file with content "" (refuted otherwise: C13_checker_empty_neighbours_needs_domain; the
+   extracted entry point guards with names_determine_content) *)
+Theorem C13_checker_empty_neighbours : forall e a e' opsa opsb,
+  empty_leaf e = true -> empty_leaf e' = true ->
+  RStreamTree.rshape (SConcat [e; a; e']) = true -> treeA (SConcat [e; a; e']) = true ->
+  BoundsPos.tiny (SConcat [e; a; e']) = true ->
+  CompWarmLawsFull.consistentb (CompWarmContInv.decl (SConcat [e; a; e'])) = true ->
+  chk_C13 (SConcat [e; a; e']) a false (api_pair (SConcat [e; a; e']) opsa a opsb) = 0.
+Proof. exact LawChkLaws.C13_empty_neighbours_checker_full. Qed.
+Print Assumptions C13_checker_empty_neighbours.
+
+Theorem C13_checker_empty_neighbours_needs_domain :
+  exists e a e' opsa opsb, empty_leaf e = true /\ empty_leaf e' = true /\
+    RStreamTree.rshape (SConcat [e; a; e']) = true /\ treeA (SConcat [e; a; e']) = true /\
+    BoundsPos.tiny (SConcat [e; a; e']) = true /\
+    CompWarmLawsFull.consistentb (CompWarmContInv.decl a) = true /\
+    chk_C13 (SConcat [e; a; e']) a false (api_pair (SConcat [e; a; e']) opsa a opsb) <> 0.
+Proof. exact LawChkExample.empty_neighbours_law_refuted_without_neighbour_contents. Qed.
+Print Assumptions C13_checker_empty_neighbours_needs_domain.
+
+Theorem C13_checker_replace_none : forall a opsa opsb,
+  has_cached a = false -> treeA a = true ->
+  chk_C13 (SReplace a []) a false (api_pair (SReplace a []) opsa a opsb) = 0.
+Proof. exact LawChkLaws.C13_replace_none_checker_free. Qed.
+Print Assumptions C13_checker_replace_none.
+
+Theorem C13_checker_typed_nesting : forall xs ys cs opsa opsb,
+  let T := concat_new (xs ++ ITyped cs :: ys) in
+  let B := concat_new (xs ++ map IBoxed cs ++ ys) in
+  has_cached B = false -> treeA B = true ->
+  chk_C13 T B false (api_pair T opsa B opsb) = 0.
+Proof. exact LawChkLaws.C13_typed_nesting_checker_free. Qed.
+Print Assumptions C13_checker_typed_nesting.
